@@ -45,6 +45,9 @@ Clauses(ev) ==
         <<"RoundTripModNum", wf /\ RoundTripModNumOK(pa, ev.b, ign)>>,
         <<"PyPatch",     Has(ev, "p") /\ RoundTripOK(ev.p, ev.b, ign)>>,
         <<"PyPatchIsSpecPatch", (wf /\ Has(ev, "p")) => Eq(ev.p, pa)>>,
+        \* the diff is a value: applying it again gives the same notebook, and applying it does not change it
+        <<"RepeatPatch", Has(ev, "p") => (Has(ev, "p2") /\ RoundTripOK(ev.p2, ev.b, ign))>>,
+        <<"DiffUnchangedByPatch", Has(ev, "dAfter") => ev.dAfter = d>>,
         <<"EmptyOnlyIfSame", (ign = {} /\ Len(d) = 0) => same>>,
         <<"SameOnlyIfEmpty", same => Len(d) = 0>>,
         <<"NoIgnoredPath", NoIgnoredPath(d, ign)>>,
